@@ -10,6 +10,7 @@ import (
 
 	"golang.org/x/tools/go/ssa"
 
+	"wtfverif/checker/internal/interval"
 	"wtfverif/checker/internal/load"
 	"wtfverif/checker/internal/maporder"
 	"wtfverif/checker/internal/ssau"
@@ -627,31 +628,86 @@ func c13Analyzer(c *Ctx, sx *symx.Ctx) {
 			}
 		}
 		r.Check(dedupe, "O-5", fk2+"#dedupes-project-types", c.P.Pos(fin.Pos()), "ProjectTypes = removeDuplicateProjectTypes(ProjectTypes)", "finalizeContext does not replace ProjectTypes by their de-duplicated list")
-		genOK := false
-		cd := ssau.ControlDeps(fin)
+		// 'generic' is put into ProjectTypes exactly when the list is empty: every
+		// store of a value containing the constant happens where len == 0 is
+		// established (any equivalent form of the test: the interval of
+		// len(ProjectTypes) at the store is [0,0]), and every path on which
+		// len == 0 holds reaches such a store before returning
+		f := sx.Of(fin)
+		q := interval.New(f)
+		var lens []ssa.Value
 		ssau.ForEachInstr(fin, false, func(in ssa.Instruction) {
-			call, ok := in.(*ssa.Call)
-			if !ok || ssau.CallName(call) != "builtin.append" {
-				return
+			if lc, ok := in.(*ssa.Call); ok && ssau.CallName(lc) == "builtin.len" {
+				if _, ok := ssau.IsFieldLoad(lc.Common().Args[0], ctxT, "ProjectTypes"); ok {
+					lens = append(lens, lc)
+				}
 			}
-			el := appendedSingle(call)
-			if s, ok := ssau.ConstString(ssau.Strip(el)); !ok || s != "generic" {
-				return
+		})
+		emptyAt := func(b *ssa.BasicBlock) bool {
+			for _, lc := range lens {
+				if g := q.GuardBoundFrom(f.E(lc), b, interval.Iv{LoOK: true, Lo: 0}); g.HiOK && g.Hi == 0 {
+					return true
+				}
 			}
-			for _, d := range ssau.TransitiveControlDeps(cd, call.Block()) {
-				op, x, y, okc := ssau.CondOf(d.If().Cond)
-				if okc && op == token.EQL && d.Then {
-					if lc, ok := x.(*ssa.Call); ok && ssau.CallName(lc) == "builtin.len" {
-						if k, ok := ssau.ConstInt(y); ok && k == 0 {
-							if _, ok := ssau.IsFieldLoad(lc.Common().Args[0], ctxT, "ProjectTypes"); ok {
-								genOK = true
+			return false
+		}
+		holdsGeneric := func(v ssa.Value) bool {
+			switch x := v.(type) {
+			case *ssa.Call:
+				if ssau.CallName(x) == "builtin.append" {
+					if s, ok := ssau.ConstString(ssau.Strip(appendedSingle(x))); ok && s == "generic" {
+						return true
+					}
+				}
+			case *ssa.Slice:
+				if al, ok := x.X.(*ssa.Alloc); ok {
+					for _, ref := range *al.Referrers() {
+						if ia, ok := ref.(*ssa.IndexAddr); ok {
+							for _, r2 := range *ia.Referrers() {
+								if st, ok := r2.(*ssa.Store); ok {
+									if s, ok := ssau.ConstString(ssau.Strip(st.Val)); ok && s == "generic" {
+										return true
+									}
+								}
 							}
 						}
 					}
 				}
 			}
+			return false
+		}
+		genOK, why := true, ""
+		stores := map[*ssa.BasicBlock]bool{}
+		ssau.ForEachInstr(fin, false, func(in ssa.Instruction) {
+			st, ok := in.(*ssa.Store)
+			if !ok {
+				return
+			}
+			if _, ok := ssau.IsFieldAddr(st.Addr, ctxT, "ProjectTypes"); !ok || !holdsGeneric(st.Val) {
+				return
+			}
+			stores[st.Block()] = true
+			if !emptyAt(st.Block()) {
+				genOK, why = false, "'generic' can be added to a list that is not empty"
+			}
 		})
-		r.Check(genOK, "O-5", fk2+"#generic-iff-none", c.P.Pos(fin.Pos()), "'generic' is appended exactly under len(ProjectTypes) == 0", "'generic' is not appended exactly when no project type was recognised")
+		if len(stores) == 0 {
+			genOK, why = false, "'generic' is never put into ProjectTypes"
+		}
+		// completeness: from every edge that establishes len == 0, no return without such a store
+		for _, iff := range ssau.Ifs(fin) {
+			for k, sc := range iff.Block().Succs {
+				if emptyAt(iff.Block()) || !emptyAtEdge(q, f, lens, iff.Block(), k) {
+					continue
+				}
+				for _, ret := range ssau.ReturnsOf(fin) {
+					if !stores[sc] && (sc == ret.Block() || reachAvoidBB(sc, ret.Block(), nil, stores)) {
+						genOK, why = false, "an empty list can be returned without 'generic'"
+					}
+				}
+			}
+		}
+		r.Check(genOK, "O-5", fk2+"#generic-iff-none", c.P.Pos(fin.Pos()), "'generic' enters ProjectTypes exactly where len(ProjectTypes) == 0 is established, on every such path", "'generic' is not added exactly when no project type was recognised: "+why)
 	}
 	// removeDuplicateProjectTypes: first-occurrence idiom
 	rdf := c.P.Func("internal/context", "", "removeDuplicateProjectTypes")
@@ -714,6 +770,50 @@ func c13Analyzer(c *Ctx, sx *symx.Ctx) {
 	r.Floor("O-5", "boost constants checked", nConst, 80)
 }
 
+// emptyAtEdge: the edge (b, k) itself establishes len(ProjectTypes) == 0.
+func emptyAtEdge(q *interval.Q, f *symx.Fn, lens []ssa.Value, b *ssa.BasicBlock, k int) bool {
+	iff, ok := b.Instrs[len(b.Instrs)-1].(*ssa.If)
+	if !ok {
+		return false
+	}
+	op, x, y, okc := ssau.CondOf(iff.Cond)
+	if !okc {
+		return false
+	}
+	if k == 1 {
+		op = ssau.Negate(op)
+	}
+	isLen := func(v ssa.Value) bool {
+		for _, l := range lens {
+			if f.E(l) == f.E(v) {
+				return true
+			}
+		}
+		return false
+	}
+	c, isC := ssau.ConstInt(y)
+	if !isLen(x) || !isC {
+		if c2, isC2 := ssau.ConstInt(x); isC2 && isLen(y) {
+			op, c, isC = ssau.Flip(op), c2, true
+		} else {
+			return false
+		}
+	}
+	if !isC {
+		return false
+	}
+	// len >= 0 always: the edge pins it to 0
+	switch op {
+	case token.EQL:
+		return c == 0
+	case token.LEQ:
+		return c == 0
+	case token.LSS:
+		return c == 1
+	}
+	return false
+}
+
 // firstOccurrenceIdiom: fn(xs) ranges over xs in order and appends x exactly
 // when it was not seen before; no sort.
 func firstOccurrenceIdiom(fn *ssa.Function) (bool, string) {
@@ -755,18 +855,50 @@ func firstOccurrenceIdiom(fn *ssa.Function) (bool, string) {
 			good, why = false, "appends something other than the current element"
 			return
 		}
+		// the append happens only when the element is absent from a "seen" map
+		// (plain bool lookup false, or comma-ok lookup not ok, possibly through
+		// a negation), and the element is entered into that map on the same path
 		guarded := false
+		isElem := func(v ssa.Value) bool {
+			ku, ok := v.(*ssa.UnOp)
+			if !ok {
+				return false
+			}
+			kia, ok := ku.X.(*ssa.IndexAddr)
+			return ok && kia.Index == loop.Index && kia.X == loop.Over
+		}
 		for _, d := range ssau.TransitiveControlDeps(cd, call.Block()) {
-			if lk, ok := d.If().Cond.(*ssa.Lookup); ok && !d.Then {
-				if ku, ok := lk.Index.(*ssa.UnOp); ok {
-					if kia, ok := ku.X.(*ssa.IndexAddr); ok && kia.Index == loop.Index {
-						guarded = true
+			cond, absentOn := d.If().Cond, false // the edge on which "absent" holds
+			if u, ok := cond.(*ssa.UnOp); ok && u.Op == token.NOT {
+				cond, absentOn = u.X, true
+			}
+			var lk *ssa.Lookup
+			switch x := cond.(type) {
+			case *ssa.Lookup:
+				if !x.CommaOk {
+					lk = x
+				}
+			case *ssa.Extract:
+				if l, ok := x.Tuple.(*ssa.Lookup); ok && l.CommaOk && x.Index == 1 {
+					lk = l
+				}
+			}
+			if lk == nil || !isElem(lk.Index) || d.Then != absentOn {
+				continue
+			}
+			// entered on the same path: an update of the same map with the element
+			for _, ref := range *lk.X.Referrers() {
+				if mu, ok := ref.(*ssa.MapUpdate); ok && mu.Map == lk.X && isElem(mu.Key) {
+					for _, d2 := range ssau.TransitiveControlDeps(cd, mu.Block()) {
+						if d2 == d {
+							guarded = true
+						}
 					}
 				}
 			}
 		}
 		if !guarded {
-			good, why = false, "the append is not guarded by !seen[x]"
+			good, why = false, "the append is not guarded by the element being absent from a map it is then entered into"
 		}
 	})
 	if nApp != 1 && good {
